@@ -7,7 +7,6 @@ from rules import registry
 NA = {
  "C01": "numerical identity with the DFT for all inputs is value-level; no clause is visible in the shape of the code beyond what C04/C06 claim (lengths, directions); deciding it needs execution or symbolic algebra (a different technique family)",
  "C07": "equality of per-chunk results is value-level, and isolation can only leak through stale scratch (C08) or out-of-chunk accesses (C03); the structural part (disjoint split_at chunks, each visited once) is checked under C09",
- "C08": "scratch sufficiency is a family of relational inequalities over run-time lengths with max/if, and content independence is write-before-read over run-time-sized buffers; both need relational numeric reasoning or a solver (scratch trimming is checked under C03/C09)",
  "C12": "whether a nest of constructors satisfies each precondition and computes the right values depends on run-time lengths and values; the per-type rules of C03/C09/C11/C15 hold for every public algorithm type regardless of nesting",
 }
 PENDING = "checker not built yet in this round (see DESIGN.md section 9 build order)"
@@ -17,6 +16,7 @@ TECH = {
  "C04": "static analysis: switch-table extraction and cross-checking of planner tables, direction def-use, zero-length guards",
  "C05": "static analysis: who-may-call + interval bound on every Dft::new call site (clause 2 only)",
  "C06": "static analysis: cache accessor table agreement, direction provenance (def-use) through every constructor",
+ "C08": "static analysis: def-use provenance of scratch through kernels and constructors (which inner transform receives which part of the scratch, which requirement each advertised-length formula consults), must-pass-through dominance check of the Bluestein zero fill, validator trim (path-must dataflow)",
  "C09": "static analysis: path-must dataflow over validator CFGs, def-use provenance of entry-point arguments, error-sink reachability",
  "C10": "static analysis: cache-key provenance, nondeterminism-source lint over planner-reachable code",
  "C11": "static analysis: deep type walk + MIR cast/call lints (rustc_private driver) + compile-time auto-trait witness with compile-fail twins",
